@@ -85,3 +85,19 @@ def nested_template_data(msg):
             if par['name'] == 'template_data':
                 return norm_json(par['value'])
     return None
+
+
+class debug_logging(object):
+    """the root logger at DEBUG while the block runs -- what the documented `pybufrkit --debug` option (or
+    logging.basicConfig(level=logging.DEBUG) in a program that uses the library) sets up; records go nowhere"""
+    _null = logging.NullHandler()
+
+    def __enter__(self):
+        self.level = logging.root.level
+        logging.root.addHandler(self._null)
+        logging.root.setLevel(logging.DEBUG)
+
+    def __exit__(self, *a):
+        logging.root.setLevel(self.level)
+        logging.root.removeHandler(self._null)
+        return False
